@@ -109,22 +109,24 @@ func symBinop(op token.Token, t types.Type, x, y value) value {
 	switch so {
 	case "Int":
 		switch op {
-		case token.ADD:
-			return mk("Int", "+")
-		case token.SUB:
-			return mk("Int", "-")
-		case token.MUL:
-			return mk("Int", "*")
+		case token.ADD, token.SUB, token.MUL:
+			r := mk("Int", map[token.Token]string{token.ADD: "+", token.SUB: "-", token.MUL: "*"}[op]).(*Sym)
+			intervalArith(op, t, x, y, r)
+			return r
 		case token.QUO:
 			if X.decide(&Sym{Sort: "Bool", T: "(= " + b + " 0)"}) {
 				panic("runtime error: integer divide by zero")
 			}
-			return mk("Int", "tdiv")
+			r := mk("Int", "tdiv").(*Sym)
+			intervalArith(op, t, x, y, r)
+			return r
 		case token.REM:
 			if X.decide(&Sym{Sort: "Bool", T: "(= " + b + " 0)"}) {
 				panic("runtime error: integer divide by zero")
 			}
-			return mk("Int", "tmod")
+			r := mk("Int", "tmod").(*Sym)
+			intervalArith(op, t, x, y, r)
+			return r
 		case token.EQL:
 			return mk("Bool", "=")
 		case token.NEQ:
@@ -311,4 +313,111 @@ func quotCompare(op token.Token, x, y value) string {
 		t = "(not " + t + ")"
 	}
 	return t
+}
+
+// ---- interval tracking of symbolic machine integers -----------------------
+// Integers are encoded as mathematical integers. To make sure they never
+// stand in for machine words that wrap, every Int term carries an interval
+// computed by interval arithmetic; an operation whose result interval leaves
+// the range of its Go type (or whose operand has no known interval) makes the
+// run inconclusive instead of silently mis-modelling wrap-around.
+
+func ivalOf(v value) (lo, hi int64, ok bool) {
+	switch x := v.(type) {
+	case *Sym:
+		return x.Lo, x.Hi, x.Bounded
+	case int, int8, int16, int32, int64, uint, uint8, uint16, uint32, uintptr:
+		n := asInt64(x)
+		return n, n, true
+	case uint64:
+		if x > 1<<62 {
+			return 0, 0, false
+		}
+		return int64(x), int64(x), true
+	}
+	return 0, 0, false
+}
+
+func typeRange(t types.Type) (lo, hi int64) {
+	b, _ := t.Underlying().(*types.Basic)
+	if b == nil {
+		return -1 << 62, 1 << 62
+	}
+	switch b.Kind() {
+	case types.Int8:
+		return -128, 127
+	case types.Int16:
+		return -32768, 32767
+	case types.Int32:
+		return -1 << 31, 1<<31 - 1
+	case types.Uint8:
+		return 0, 255
+	case types.Uint16:
+		return 0, 65535
+	case types.Uint32:
+		return 0, 1<<32 - 1
+	case types.Uint, types.Uint64, types.Uintptr:
+		return 0, 1 << 62
+	}
+	return -1 << 62, 1 << 62 // int, int64 (kept one bit short so the checks themselves cannot overflow)
+}
+
+const ivalLimit = int64(1) << 31 // operands beyond this are treated as unbounded (products stay below 2^62)
+
+func setIval(r *Sym, t types.Type, lo, hi int64, op string) {
+	tl, th := typeRange(t)
+	if lo < tl || hi > th {
+		panic(unsupported{fmt.Sprintf("symbolic %s on %s may leave the range of the type (interval [%d,%d]): wrap-around is not modelled", op, t, lo, hi)})
+	}
+	r.Lo, r.Hi, r.Bounded = lo, hi, true
+}
+
+func intervalArith(op token.Token, t types.Type, x, y value, r *Sym) {
+	xl, xh, xok := ivalOf(x)
+	yl, yh, yok := ivalOf(y)
+	big := func(a int64) bool { return a > ivalLimit || a < -ivalLimit }
+	if !xok || !yok || big(xl) || big(xh) || big(yl) || big(yh) {
+		panic(unsupported{fmt.Sprintf("symbolic %s on %s with an operand of unknown range: overflow cannot be excluded", op, t)})
+	}
+	min4 := func(a, b, c, d int64) (int64, int64) {
+		lo, hi := a, a
+		for _, v := range []int64{b, c, d} {
+			if v < lo {
+				lo = v
+			}
+			if v > hi {
+				hi = v
+			}
+		}
+		return lo, hi
+	}
+	switch op {
+	case token.ADD:
+		setIval(r, t, xl+yl, xh+yh, "+")
+	case token.SUB:
+		setIval(r, t, xl-yh, xh-yl, "-")
+	case token.MUL:
+		lo, hi := min4(xl*yl, xl*yh, xh*yl, xh*yh)
+		setIval(r, t, lo, hi, "*")
+	case token.QUO:
+		// truncated division never increases the magnitude
+		m := xh
+		if -xl > m {
+			m = -xl
+		}
+		setIval(r, t, -m, m, "/")
+		if xl >= 0 && yl > 0 {
+			r.Lo = 0
+		}
+	case token.REM:
+		m := yh
+		if -yl > m {
+			m = -yl
+		}
+		if xl >= 0 {
+			setIval(r, t, 0, m, "%")
+		} else {
+			setIval(r, t, -m, m, "%")
+		}
+	}
 }
